@@ -147,6 +147,9 @@ func GetDocCommentOn(file *ast.File, obj types.Object) (cg *ast.CommentGroup, cl
 					}
 				}
 			}
+			// A method or a struct field has a doc comment of its own or none: what is written
+			// above the declaration around it is about that declaration.
+			return nil, func() {}
 		}
 		// The file's doc comment (the package documentation) belongs to no declaration: the lookup
 		// ends at the outermost declaration.
